@@ -24,7 +24,13 @@
           segment with no data and never advances, also after SESS_TERM;
           file.read(0) returns b'').  Proved: C04_no_start_after_term_partial,
           under the hypothesis that the segment size in use is positive in every
-          state of the run in which the session is established;
+          state of the run in which the session is established; and
+          C04_no_start_after_term_inputs, the same under hypotheses on the inputs
+          only: 1 <= segment_size_tx_initial, and every SESS_INIT handled announces a
+          segment MRU >= 1 and a decodable (ASCII) node id -- these imply the guard
+          (C04_pos_seg_from_inputs).  A peer announcing segment MRU 0 makes data
+          transfer impossible for any implementation, and a SESS_INIT whose node id
+          is not valid UTF-8 is not a well-formed message, so this is an input guard;
      (2d) C04_sess_init_active   an active endpoint sends at most one SESS_INIT,
           and it is its second frame, whatever the peer does;
           C04_sess_init_passive  a passive endpoint sends exactly one SESS_INIT per
@@ -39,6 +45,8 @@
           passive side: for a cooperating peer, which an active endpoint is);
           C04_grammar_active_partial / C04_grammar_passive_partial / C04_pair_partial:
           the full grammar under the positive-segment-size hypothesis of (2c);
+          C04_grammar_active_inputs / C04_grammar_passive_inputs: the same under the
+          input hypotheses of (2c);
      (2f) C04_seg_within_mru  if at most one SESS_INIT was handled, every segment
           sent carries at most the announced segment MRU of data octets;
      (2g) C04_ack_echo  UNCONDITIONALLY the XFER_ACKs sent are exactly those owed
@@ -94,6 +102,39 @@ Theorem C04_no_start_after_term_refuted :
     /\ ~ Forall (fun f => match f with FMsg (MXferSeg flags _ _ _) => has_start flags = false | _ => True end) post.
 Proof. exact no_start_after_term_refuted. Qed.
 Print Assumptions C04_no_start_after_term_refuted.
+
+Theorem C04_pos_seg_from_inputs : forall (c : cfg) (ops : list op),
+  0 < c_seg_init c ->
+  Forall (fun f => match f with FMsg (MSessInit _ smru _ nid _) => 0 < smru /\ ascii nid = true | _ => True end)
+         (handled (run c ops)) ->
+  forall k, let s := run c (firstn k ops) in in_sess s = true -> 0 < seg_size s.
+Proof. exact pos_seg_from_inputs. Qed.
+Print Assumptions C04_pos_seg_from_inputs.
+
+Theorem C04_no_start_after_term_inputs : forall (c : cfg) (ops : list op),
+  0 < c_seg_init c ->
+  Forall (fun f => match f with FMsg (MSessInit _ smru _ nid _) => 0 < smru /\ ascii nid = true | _ => True end)
+         (handled (run c ops)) ->
+  forall pre fl r post, sent (run c ops) = pre ++ FMsg (MSessTerm fl r) :: post ->
+  Forall (fun f => match f with FMsg (MXferSeg flags _ _ _) => has_start flags = false | _ => True end) post.
+Proof. exact no_start_after_term_inputs. Qed.
+Print Assumptions C04_no_start_after_term_inputs.
+
+Theorem C04_grammar_active_inputs : forall (c : cfg) (ops : list op), c_passive c = false ->
+  0 < c_seg_init c ->
+  Forall (fun f => match f with FMsg (MSessInit _ smru _ nid _) => 0 < smru /\ ascii nid = true | _ => True end)
+         (handled (run c ops)) ->
+  legal_prefix (sent (run c ops)) = true.
+Proof. exact C04_grammar_active_inputs. Qed.
+Print Assumptions C04_grammar_active_inputs.
+
+Theorem C04_grammar_passive_inputs : forall (c : cfg) (ops : list op), c_passive c = true ->
+  peer_coop (handled (run c ops)) -> 0 < c_seg_init c ->
+  Forall (fun f => match f with FMsg (MSessInit _ smru _ nid _) => 0 < smru /\ ascii nid = true | _ => True end)
+         (handled (run c ops)) ->
+  legal_prefix (sent (run c ops)) = true.
+Proof. exact C04_grammar_passive_inputs. Qed.
+Print Assumptions C04_grammar_passive_inputs.
 
 Theorem C04_sess_init_active : forall (c : cfg) (ops : list op), c_passive c = false ->
   let s := run c ops in
@@ -200,6 +241,14 @@ Example C04_partial_nonvacuous :
   /\ existsb (fun f => match f with FMsg (MSessTerm _ _) => true | _ => false end) (sent (run exA exOpsA)) = true
   /\ existsb (fun f => match f with FMsg (MXferAck _ _ _) => true | _ => false end) (sent (run exA exOpsA)) = true
   /\ legal_prefix (sent (run exA exOpsA)) = true.
+Proof. vm_compute. repeat split; reflexivity. Qed.
+
+(* the input hypotheses hold on that run *)
+Example C04_inputs_nonvacuous :
+  0 < c_seg_init exA
+  /\ forallb (fun f => match f with FMsg (MSessInit _ smru _ nid _) => (0 <? smru) && ascii nid | _ => true end)
+             (handled (run exA exOpsA)) = true
+  /\ length (handled (run exA exOpsA)) = 3%nat.
 Proof. vm_compute. repeat split; reflexivity. Qed.
 
 (* a passive endpoint with a cooperating peer: one SESS_INIT handled, one sent;
